@@ -19,8 +19,10 @@ pub struct Seen {
     pub types: [u16; MAXR],
     pub classes: [u16; MAXR],
     pub ttls: [u32; MAXR],
-    pub ips: [[u8; 16]; MAXR],
+    pub ips: [[u8; 32]; MAXR],
     pub ip_lens: [usize; MAXR],
+    /// capacity the hook announces to rr_ip (a 32-byte buffer: any value 16..=32)
+    pub ip_cap: usize,
     // write script (applied to record `target`)
     pub target: usize,
     pub do_write: bool,
@@ -40,8 +42,9 @@ impl Seen {
             types: [0; MAXR],
             classes: [0; MAXR],
             ttls: [0; MAXR],
-            ips: [[0; 16]; MAXR],
+            ips: [[0; 32]; MAXR],
             ip_lens: [0; MAXR],
+            ip_cap: 16,
             target: 99,
             do_write: false,
             new_ttl: 0,
@@ -90,7 +93,7 @@ pub unsafe extern "C" fn cb(ctx: *mut c_void, it: *const SectionIterator) -> boo
     seen.classes[k] = (seen.table.rr_class)(it);
     seen.ttls[k] = (seen.table.rr_ttl)(it);
     if seen.types[k] == 1 || seen.types[k] == 28 {
-        let mut len: usize = 16;
+        let mut len: usize = seen.ip_cap;
         (seen.table.rr_ip)(it, seen.ips[k].as_mut_ptr(), &mut len);
         seen.ip_lens[k] = len;
     }
@@ -128,6 +131,9 @@ pub fn read<S: Src, K: Skel, const SEC: u8>(s: &mut S) -> Verdict {
     let (p, mut pp, mut twin) = parse2::<K, S>(s)?;
     cut_errors(0);
     let mut seen = Seen::new();
+    // the hook's address buffer is 32 bytes; it may announce any capacity that holds an IPv6 address
+    let cap = 16 + (s.u8() % 17) as usize;
+    seen.ip_cap = cap;
     vassert!(seen.table.abi_version == 2, "table: ABI version as in the header (0x2)");
     unsafe {
         vassert!((seen.table.flags)(&pp) == twin.flags(), "table flags() == native");
@@ -165,10 +171,11 @@ pub fn read<S: Src, K: Skel, const SEC: u8>(s: &mut S) -> Verdict {
         match it.rr_ip() {
             Ok(IpAddr::V4(a)) => {
                 vassert!(seen.ip_lens[k] == 4 && slices_eq(&seen.ips[k][..4], &a.octets()), "table rr_ip(): exactly 4 address bytes");
-                vassert!(seen.ips[k][4] == 0 && seen.ips[k][15] == 0, "table rr_ip(): nothing written beyond the 4 bytes");
+                vassert!(seen.ips[k][4] == 0 && seen.ips[k][15] == 0 && seen.ips[k][16] == 0 && seen.ips[k][31] == 0, "table rr_ip(): nothing written beyond the 4 bytes");
             }
             Ok(IpAddr::V6(a)) => {
-                vassert!(seen.ip_lens[k] == 16 && slices_eq(&seen.ips[k], &a.octets()), "table rr_ip(): exactly 16 address bytes");
+                vassert!(seen.ip_lens[k] == 16 && slices_eq(&seen.ips[k][..16], &a.octets()), "table rr_ip(): exactly 16 address bytes");
+                vassert!(seen.ips[k][16] == 0 && seen.ips[k][31] == 0, "table rr_ip(): nothing written beyond the 16 bytes");
             }
             Err(_) => {}
         }
